@@ -16,9 +16,9 @@ Property sentence → theorems
   (hence not in `PeerState`, which is computed from the table) is not protected.
   `retired_holds_no_work` (hypothesis: `new` requests carry drained ids, `ReachableDrained`) adds that
   such a request has no active topic in any task queue once its task worker has returned.
-* "exactly one outcome": FALSE at full strength on the faithful model, `one_outcome_counterexample`
-  (cancelled AND reported to network-error listeners — known finding
-  `network-error-and-other-outcome`).  NO positive form is proved: "completed at most once, cancelled
+* "exactly one outcome": the former counterexample (cancelled AND reported to network-error listeners,
+  finding `network-error-and-other-outcome`) is repaired in /repo e842a00 and pinned by the test
+  `fix_e842a00_regression`.  NO positive form is proved: "completed at most once, cancelled
   at most once, never both" needs an invariant over the terminal statuses queued in message builders
   and publisher queues; it is checked per schedule on the real code only (oracle classes
   `completed-twice`, `cancelled-twice`, `outcome-multi`, `outcome-none`).
@@ -142,14 +142,13 @@ def cancelNerrScript : List Action :=
    .net 0 true, .extract 0,                                  -- hook data now in flight
    .net 0 false, .pub 0, .mgr, .pub 0]                       -- send fails: nerr(0)
 
-/-- **C05.one_outcome_counterexample**: a reachable state (fresh ids) in which request 0 has been
-    reported both as cancelled and as failed on the network.  Replayed on the real code by
-    corpus/C05 `known-cancel-queued-then-network-error-of-hook-data` (known finding
-    `network-error-and-other-outcome`). -/
-theorem one_outcome_counterexample :
-    ∃ s, ReachableFresh {} s ∧ Event.canc 0 ∈ s.events ∧ Event.nerr 0 ∈ s.events ∧ s.table = [] :=
-  ⟨run (init {}) cancelNerrScript, reachableFresh_run ReachableFresh.init _ (by decide),
-   by decide, by decide, by decide⟩
+/-- **regression for fix e842a00** (TEST, not an obligation; before the fix this script was the
+    machine-checked counterexample to "exactly one outcome": request 0 was reported both as cancelled
+    and as failed on the network — the former known finding `network-error-and-other-outcome`).  Now the
+    failed message with left-over hook data of the cancelled request is not reported again. -/
+theorem fix_e842a00_regression :
+    let s := run (init {}) cancelNerrScript
+    Event.canc 0 ∈ s.events ∧ Event.nerr 0 ∉ s.events ∧ s.table = [] := by decide
 
 /-- the replay of the defect repaired by /repo 369d047 (send failure reported after the executor's
     last signal check): 2-block request, worker parked in the hook of its last block while the message
